@@ -15,7 +15,8 @@ for d in sorted(glob.glob(os.path.join(V, 'refactors', '*'))):
     elif not r.get('applies'): res = 'does not apply'
     else:
         al = r.get('alarms') or []
-        res = 'no alarm (20 checks, tests: %s)' % r.get('tests', '?') if not al else '**alarm: %s**' % ', '.join(al)
+        n = len(r.get('checks_run') or r.get('checks') or [])
+        res = ('no alarm (%s; tests: %s)' % ('all 20 checks' if n >= 20 else 'the %d checks that execute the touched modules: %s' % (n, ', '.join(r.get('checks_run', []))), r.get('tests', '?'))) if not al else '**alarm: %s**' % ', '.join(al)
         clean += not al
     rows.append('| %s | %s | %s | %s |' % (os.path.basename(d), ', '.join(files), first, res))
 text = ['%d of %d behaviour-preserving rewrites pass all 20 quick checks without an alarm.' % (clean, total), '',
